@@ -27,9 +27,13 @@ RULE = ("documents: generated (internal/external DTD with entities, notations, I
         "scenarios per document and parser (SAXParser, SAX2XMLReader, XercesDOMParser, DOMLSParser): parse to completion, handler "
         "exception at callback k for EVERY k (fresh parser per k, and one parser swept over all k), progressive parse abandoned after "
         "every j steps (parseReset / destruction / reuse), adoptDocument with parser destroyed before/after release, reuse with and "
-        "without resetDocumentPool, grammar pool with its own manager, recording global manager around Initialize..Terminate; "
+        "without resetDocumentPool, object-lifetime sequences (every subset of {adopt} over three parses on one XercesDOMParser / DOMLSParser "
+        "user-adopts toggle x resetDocumentPool in between or not x parser destroyed before/after the adopted documents), "
+        "grammar pool with its own manager, recording global manager around Initialize..Terminate; "
         "non-trivial = scenario whose trace has >= 50 allocations; distinct by (document, parser, scenario, k); "
-        "lifecycle: random Initialize/Terminate nestings (depth <= 5, both overloads, 3 application managers, work inside); "
+        "lifecycle: random Initialize/Terminate nestings (depth <= 5, both overloads, 3 application managers, work inside) and several "
+        "consecutive lives with locale / nlsHome arguments present or absent x application or default global manager (all managers' "
+        "traces judged by the monitor, XMLMsgLoader strings judged by first-call-wins); "
         "arena: random allocate/release/setMemoryAllocationBlockSize histories for size triples inside and outside the proved region")
 ASSUMPTIONS = [
     "PARTIAL: the Janitor/catch structure of the C++ parsers is explored, not proved - what is verified is the monitor that judges every recorded run",
@@ -303,6 +307,8 @@ def plan_second(ctx, cases, first):
     """from the dry runs (callback counts) build the exhaustive second pass"""
     lines, meta = [], []
     maxk = 200
+    wf = [ci for ci, c in enumerate(cases) if c["cls"] in ("wf-dtd", "xsd-valid", "ext-dtd", "ns")]
+    seq_docs = set(wf if ctx.thorough() else wf[:1] + [ci for ci in wf if cases[ci]["cls"] == "xsd-valid"][:1])
     for (ci, parser, opts), (st, d) in first.items():
         case = cases[ci]
         n = min(int(d.get("cb", 0)), maxk)
@@ -314,14 +320,24 @@ def plan_second(ctx, cases, first):
         add("reuse")
         if parser in ("dom", "ls"):
             add("adopt-before"); add("adopt-after"); add("keep")
+        if parser in ("dom", "ls") and ci in seq_docs and "pool" not in opts:
+            # object lifetimes: every subset of {adopt} over three consecutive parses on one parser x resetDocumentPool in
+            # between or not x parser destroyed before/after the adopted documents are released (DOMLSParser: the
+            # user-adopts-DOMDocument parameter toggled per parse)
+            for mask in range(8):
+                for rs in "nr":
+                    for order in "ba":
+                        add("seq-%d-%s-%s" % (mask, rs, order))
         if parser != "ls":
             # progressive parse abandoned after j steps, for every j until the scan is over (n callbacks bound the steps)
             sax_cb = int(first.get((ci, "sax", tuple(case["opts"])), ("", {}))[1].get("cb", 10))
             steps = min((n if parser != "dom" else sax_cb) + 2, 40)
-            for j in range(0, steps + 1):
-                # abandoned by parseReset or by destruction: both for SAXParser, alternating for the others
-                if parser == "sax" or j % 2 == 0: add("prog-reset", 0, j)
-                if parser == "sax" or j % 2 == 1: add("prog-drop", 0, j)
+            stride = 1 if parser == "sax" or ctx.thorough() else 2      # quick tier: every step for SAXParser, every other step for the others
+            for j in range(0, steps + 1, stride):
+                # abandoned by parseReset or by destruction, alternating over j (both for SAXParser in the thorough tier)
+                both = parser == "sax" and ctx.thorough()
+                if both or (j // stride) % 2 == 0: add("prog-reset", 0, j)
+                if both or (j // stride) % 2 == 1: add("prog-drop", 0, j)
             add("prog-again", 0, steps // 2)
         if ci % 3 == 0:
             po = tuple(list(opts) + ["pool"])
@@ -336,7 +352,7 @@ def plan_second(ctx, cases, first):
 
 def classify(meta):
     ci, parser, mode, k, j, opts = meta
-    m = {"throw": "handler-exception", "throwall": "handler-exception-sweep"}.get(mode, mode)
+    m = {"throw": "handler-exception", "throwall": "handler-exception-sweep"}.get(mode, "lifetime-sequence" if mode.startswith("seq-") else mode)
     return "%s:%s%s%s" % (parser, m, ":pool" if "pool" in opts else "", ":global" if "g" in opts else "")
 
 def site_of(line):
@@ -362,7 +378,7 @@ def short_fn(f):
 
 def run_parsers(ctx):
     r = ctx.rng
-    ndocs = int(os.environ.get("VERIF_C18_DOCS", "150" if ctx.thorough() else "14"))
+    ndocs = int(os.environ.get("VERIF_C18_DOCS", "150" if ctx.thorough() else "5"))
     cases = list(FIXED) + [gen_case(r) for _ in range(ndocs)]
     # pass 1: dry runs (count callbacks)
     l1, m1 = [], []
@@ -516,6 +532,48 @@ def gen_lifecycle(r, balanced):
         ops += ["T"] * (d + 1 + r.below(2))
     return "L " + " ".join(ops)
 
+LOCALES = ["-", "-", "en_US", "fr_FR", "de", "bogus"]
+NLS = ["-", "-", "/tmp/hx-nls-a", "/tmp/hx-nls-b/msg"]
+
+def gen_lives(r):
+    """several complete lives of the library, each with its own global manager (application object or default) and
+    locale / nlsHome arguments present or absent; nested Initialize calls with other arguments inside"""
+    ops = []
+    for _ in range(2 + r.below(3)):
+        first = "I:%s:%s:%s" % (r.choice(["-", "u1", "u2", "u3"]), r.choice(LOCALES), r.choice(NLS))
+        if r.chance(1, 4): first = "H:4096.8192.100:" + first[2:]
+        ops.append(first); d = 1
+        for _ in range(r.below(3)):
+            c = r.below(3)
+            if c == 0: ops.append("I:%s:%s:%s" % (r.choice(["-", "u1", "u2"]), r.choice(LOCALES), r.choice(NLS))); d += 1
+            elif c == 1: ops.append("W")
+            elif d > 1: ops.append("T"); d -= 1
+        ops += ["T"] * d
+    return "L " + " ".join(ops)
+
+def msg_spec(line):
+    """locale / nlsHome strings held by XMLMsgLoader after each operation: set by the outermost Initialize only
+    (locale kept only if it looks like xx or xx_YY...), gone after the last Terminate"""
+    d, cur, out = 0, ("0", "0"), []
+    for op in line.split()[1:]:
+        if op.startswith("D:"): continue
+        if op == "T":
+            if d > 0:
+                d -= 1
+                if d == 0: cur = ("0", "0")
+        elif op != "W":
+            f = op.split(":")
+            a = 2 if f[0] == "H" else 1
+            loc = f[a + 1] if len(f) > a + 1 else "-"
+            nls = f[a + 2] if len(f) > a + 2 else "-"
+            if d == 0:
+                loc = "en_US" if loc == "-" else loc
+                ok = len(loc) == 2 or (len(loc) > 3 and loc[2] == "_")
+                cur = (loc if ok else "0", "0" if nls == "-" else nls)
+            d += 1
+        out.append("%s,%s;" % cur)
+    return "".join(out)
+
 def lifecycle_spec(line, dft):
     """Independent oracle: first call wins; everything is back to the process defaults after the last Terminate."""
     d, mgr, heap, out = 0, "0", dft["initial"], []
@@ -530,7 +588,8 @@ def lifecycle_spec(line, dft):
         else:
             f = op.split(":")
             if d == 0:
-                mgr = f[-1] if f[-1] != "-" else "d"
+                a = f[2 if f[0] == "H" else 1]
+                mgr = a if a != "-" else "d"
                 heap = int(f[1].split(".")[0]) if f[0] == "H" else dft["initial"]
             d += 1
         out.append("m=" + mgr)
@@ -541,7 +600,9 @@ def run_lifecycle(ctx):
     dft = defaults()
     n = 1200 if ctx.thorough() else 60
     lines = ["L I:u1 H:64.128.40:u2 W T T I:- W T", "L H:%d.%d.40:- W T I:- W T T" % (2072, 4144), "L T T I:u1 T T", "L I:- I:- I:- T T T W",
-             "L I:u1 T I:u2 T I:u1 W T"] + [gen_lifecycle(r, i % 4 != 0) for i in range(n)]
+             "L I:u1 T I:u2 T I:u1 W T", "L I:u1:fr_FR:/tmp/hx-nls-a W T I:u2:-:/tmp/hx-nls-b W T I:-:de:- T",
+             "L I:-:-:/tmp/hx-nls-a T I:u1:en_US:/tmp/hx-nls-b I:u2:fr_FR:- T T I:u3 T"] + \
+            [gen_lifecycle(r, i % 4 != 0) if i % 2 else gen_lives(r) for i in range(n)]
     # every case starts from the process defaults (the DOM heap sizes are statics that survive Terminate)
     lines = ["L D:%d.%d.%d %s" % (dft["initial"], dft["max"], dft["maxsub"], l[2:]) for l in lines]
     model = common.run_driver(["lifecycle"], input=("\n".join(lines) + "\n").encode()).decode().split("\n")
@@ -555,11 +616,15 @@ def run_lifecycle(ctx):
     first_corr = None
     for k, line in enumerate(lines):
         o = obs_of(outs[k]); sp = lifecycle_spec(line, dft)
+        nobs = None
+        if " N=" in o: o, nobs = o.rsplit(" N=", 1)
+        outs[k] = o + " | " + (outs[k].split(" | ", 1)[1] if " | " in outs[k] else "")
         if model[k] == "bad-op": raise common.InfraError("lifecycle model rejected " + line)
         key = None
         if o.startswith("CRASH"): key, what = "lifecycle:crash", o
         elif not (verd[k] or "").startswith("ok"):
-            key, what = "lifecycle:global-manager-trace", "the global manager's trace is rejected by the monitor: %s" % verd[k]
+            kd = re.search(r"kind=([\w-]+)", verd[k] or "")
+            key, what = "lifecycle:global-manager-trace:%s" % (kd.group(1) if kd else "no-verdict"), "the global managers' trace is rejected by the monitor: %s" % verd[k]
         elif o != sp:
             of, sf = o.split(), sp.split()
             diff = [(a, b) for a, b in zip(of, sf) if a != b]
@@ -569,6 +634,8 @@ def run_lifecycle(ctx):
                 key, what = "lifecycle:application-manager-deleted", "observed %s, expected %s" % diff[0]
             else:
                 key, what = "lifecycle:state", "observed %r, expected %r" % (diff[0] if diff else (o, sp))
+        elif nobs is not None and nobs != msg_spec(line):
+            key, what = "lifecycle:locale-nlshome", "XMLMsgLoader locale,nlsHome after each call: observed %s, expected %s (outermost Initialize wins, nothing left after the last Terminate)" % (nobs, msg_spec(line))
         if key and (key not in bad or len(line) < len(bad[key][0])):
             bad[key] = (line, o, sp, model[k], what)
         if model[k] != o and first_corr is None:
@@ -625,7 +692,7 @@ def gen_arena(r, dft, inside):
 def run_arena(ctx):
     r = ctx.rng
     dft = defaults()
-    n = 2000 if ctx.thorough() else 120
+    n = 2000 if ctx.thorough() else 80
     hs = [("%d.%d.%d" % (dft["initial"], dft["max"], dft["maxsub"]), "a24,a300,a8,r1,a256,s300,a100,a2056,a0", False, True),
           ("64.128.40", "a24,a30,a100,a40", False, True), ("64.128.256", "a256", False, False),
           ("%d.%d.%d" % (dft["initial"], dft["max"], dft["maxsub"]), "s%d,a%d,a%d" % (dft["maxsub"] + 4, dft["maxsub"], dft["maxsub"]), True, True)]
